@@ -56,6 +56,9 @@ def run(ck: Check, prog: Program) -> None:
         hf_ = mprog.func(q_)
         ck.functions.add(hf_.qualname)
         c06._hash_uses(ck, mprog, hf_)
+    # "the addressed method": the HTTP integrations hand the request to the dispatcher of the endpoint it was sent to
+    from .c18 import route_bind
+    route_bind(ck, prog)
     # "a rejected batch (... duplicate ids ...) executes nothing": every id but None takes part in the duplicate check of the
     # strict BatchRequest constructor that from_json uses
     addf = prog.func('pjrpc.common.v20.BatchRequest._add_ids')
@@ -67,6 +70,11 @@ def run(ck: Check, prog: Program) -> None:
 
 
 MUTANTS = [
+    dict(name='method-lookup-through-an-lru-cache-object', file='pjrpc/server/dispatcher.py', nth=1,
+         find='        method = self._registry.get(method_name)\n', replace='        method = self._lookup(method_name)\n',
+         also=[dict(file='pjrpc/server/dispatcher.py', nth=1, find='        self._concurrent_batch = concurrent_batch\n',
+                    replace='        self._concurrent_batch = concurrent_batch\n        self._lookup = ft.lru_cache(maxsize=None)(self._registry.get)\n')],
+         expect='LOOKUP-EXACT'),
     dict(name='size-limit-applied-to-the-undecoded-document', file='pjrpc/server/dispatcher.py', nth=0,
          find='            request_json = self._json_loader(request_text, cls=self._json_decoder)\n',
          replace='            request_json = self._json_loader(request_text, cls=self._json_decoder)\n'
